@@ -44,6 +44,8 @@ type FuncContract struct {
 	Requires []*Clause
 	Ensures  []*Clause
 	Captured []*Clause // behaviour contracts: ASSUMED facts about captured variables (not checked at call sites)
+	Iterates *IterSpec            // iterator functions: the callback protocol
+	IterInv  map[string][]*Clause // call-site invariants for expanded iterator calls, by callee suffix
 	AtCalls  []*Clause // assertions at every call of a named callee (Tags[..], Callee in Kind)
 	Checks   []*Clause // like ensures, but verified only (not exported to callers); may mention locals
 	Assigns  []*Clause
@@ -101,6 +103,16 @@ type Axiom struct {
 	Lib    bool
 }
 
+// IterSpec: "iterates <cb> count <expr> elem <expr>": the function calls cb(elem[$i]) for $i = 0, 1, ...
+// < count, in order, until cb returns true.
+type IterSpec struct {
+	Param string
+	Count ast.Expr
+	Elem  ast.Expr
+	When  ast.Expr // optional filter: cb is called only for indices satisfying it
+	Text  string
+}
+
 type IfaceSpec struct {
 	Key      string // (<iface type>).<method>
 	Spec     string // spec function applied to the receiver value
@@ -128,7 +140,7 @@ type GlobalFact struct {
 
 var clauseKeywords = map[string]bool{"func": true, "spec": true, "axiom": true, "requires": true, "ensures": true,
 	"assigns": true, "effects": true, "nilable": true, "loop": true, "pure": true, "trusted": true, "iface": true,
-	"import": true, "inline": true, "global": true, "props": true, "split": true, "reveal": true, "use": true, "typeinv": true, "behaves": true, "behaviour": true, "check": true, "captured": true, "atcall": true}
+	"import": true, "inline": true, "global": true, "props": true, "split": true, "reveal": true, "use": true, "typeinv": true, "behaves": true, "behaviour": true, "check": true, "captured": true, "atcall": true, "iterates": true, "iter": true}
 
 func firstWord(s string) string {
 	s = strings.TrimSpace(s)
@@ -210,6 +222,53 @@ func (P *Program) parseClauses(lines []cline, sc *Scope, pkgPath string, lib boo
 				return errf(l, "import %q: package not loaded", path)
 			}
 			sc.Aliases[fs[0]] = tp
+		case "iterates":
+			// iterates <cb> count <expr> elem <expr>
+			i := strings.Index(rest, " count ")
+			j := strings.Index(rest, " elem ")
+			if i < 0 || j < i || cur == nil {
+				return errf(l, "iterates <cb> count <expr> elem <expr> expected")
+			}
+			ce, err := parseSpecExpr(strings.TrimSpace(rest[i+7 : j]))
+			if err != nil {
+				return errf(l, "%v", err)
+			}
+			elemText := strings.TrimSpace(rest[j+6:])
+			var we ast.Expr
+			if k := strings.Index(elemText, " when "); k >= 0 {
+				we, err = parseSpecExpr(strings.TrimSpace(elemText[k+6:]))
+				if err != nil {
+					return errf(l, "%v", err)
+				}
+				elemText = strings.TrimSpace(elemText[:k])
+			}
+			ee, err := parseSpecExpr(elemText)
+			if err != nil {
+				return errf(l, "%v", err)
+			}
+			cur.Iterates = &IterSpec{Param: strings.TrimSpace(rest[:i]), Count: ce, Elem: ee, When: we, Text: rest}
+		case "iter":
+			// iter <callee suffix> invariant [{tags}] expr
+			fs := strings.SplitN(rest, " ", 3)
+			if len(fs) < 3 || fs[1] != "invariant" || cur == nil {
+				return errf(l, "iter <callee> invariant <expr> expected")
+			}
+			text := strings.TrimSpace(fs[2])
+			var tags []string
+			if m := reTags.FindStringSubmatch(text); m != nil {
+				for _, t := range strings.Split(m[1], ",") {
+					tags = append(tags, strings.TrimSpace(t))
+				}
+				text = text[len(m[0]):]
+			}
+			e, err := parseSpecExpr(text)
+			if err != nil {
+				return errf(l, "%v in %q", err, text)
+			}
+			if cur.IterInv == nil {
+				cur.IterInv = map[string][]*Clause{}
+			}
+			cur.IterInv[fs[0]] = append(cur.IterInv[fs[0]], &Clause{Kind: "iter", Text: text, Expr: e, Tags: tags, File: l.file, Line: l.line})
 		case "atcall":
 			// atcall <callee suffix>: [{tags}] expr   — asserted before every call of that callee, over locals
 			i := strings.Index(rest, ":")
